@@ -55,10 +55,15 @@ func c06Workload(bus *EventBus, k int, mu *sync.Mutex, started, finished *int) i
 	return k + 1 // k first-level invocations plus one nested
 }
 
-//verif:entry property=C06 tier=both bounds="k<=K publishes to an async handler that yields mid-way and publishes one second-level async event; every interleaving within the preemption bound; Wait" cover="waited" K_quick=2 K_thorough=2 preempt_quick=2 preempt_thorough=3 race=on
+//verif:entry property=C06 tier=both bounds="k<=K publishes to an async handler that yields mid-way and publishes one second-level async event; observability layer present or not; every interleaving within the preemption bound; Wait" cover="waited" K_quick=2 K_thorough=2 preempt_quick=2 preempt_thorough=3 race=on
 func harnessC06Wait() {
 	K := vParam("K", 2)
-	bus := New()
+	var bus *EventBus
+	if vBool() {
+		bus = New(WithObservability(&c20Obs{})) // an observability layer wraps the publish context
+	} else {
+		bus = New()
+	}
 	var mu sync.Mutex
 	started, finished := 0, 0
 	k := vInt(1, K)
@@ -128,4 +133,44 @@ func harnessC06TwoAsyncSameType() {
 	mu.Unlock()
 	vJoinAll()
 	vCover("waited")
+}
+
+//verif:entry property=C06 tier=both bounds="Shutdown twice: a first Shutdown whose context is already cancelled returns the context error while an async handler is still running; the handler finishes; new async work is published; a second Shutdown with a live context must again wait for it and close the store exactly once" cover="second-shutdown" preempt_quick=2 preempt_thorough=3 race=on
+func harnessC06ShutdownTwice() {
+	var mu sync.Mutex
+	finished := 0
+	cl := &c06Closer{MemoryStore: NewMemoryStore(), finished: &finished, fmu: &mu}
+	bus := New(WithStore(cl))
+	gate := make(chan struct{})
+	Subscribe(bus, func(e evA) {
+		if e.N == 0 {
+			<-gate
+		} else {
+			vYield()
+		}
+		mu.Lock()
+		finished++
+		mu.Unlock()
+	}, Async())
+	Publish(bus, evA{N: 0})
+	ctx, cancel := context.WithCancel(context.Background())
+	cancel()
+	err1 := bus.Shutdown(ctx)
+	vAssert(err1 != nil, "first-shutdown-reports-context-error")
+	cl.mu.Lock()
+	vAssert(cl.closes == 0, "shutdown-error-does-not-close-store")
+	cl.mu.Unlock()
+	close(gate)
+	bus.Wait()
+	Publish(bus, evA{N: 1})
+	err2 := bus.Shutdown(context.Background())
+	vAssert(err2 == nil, "second-shutdown-ok")
+	mu.Lock()
+	vAssert(finished == 2, "shutdown-nil-only-after-all-async-work-finished")
+	mu.Unlock()
+	cl.mu.Lock()
+	vAssert(cl.closes == 1 && cl.doneAtClose == 2, "store-closed-once-after-work-finished")
+	cl.mu.Unlock()
+	vJoinAll()
+	vCover("second-shutdown")
 }
